@@ -30,6 +30,7 @@ import (
 	_ "github.com/influxdata/influxdb/v2/tsdb/engine"
 	"github.com/influxdata/influxdb/v2/tsdb/engine/tsm1"
 	_ "github.com/influxdata/influxdb/v2/tsdb/index"
+	"github.com/influxdata/influxdb/v2/tsdb/index/tsi1"
 	"github.com/influxdata/influxql"
 	"golang.org/x/sys/unix"
 )
@@ -49,6 +50,11 @@ type Options struct {
 	SeriesDir string
 	// NoWAL disables the write-ahead log.
 	NoWAL bool
+	// TSIPartitions, if > 0, sets the number of partitions of the tsi1 index (tsi1.DefaultPartitionN, the
+	// knob behind INFLUXDB_EXP_TSI_PARTITIONS; must be a power of 2; default 8). Opening an index costs
+	// ~2 HLL sketches per partition, so deep enumerations use 1. Process-global like SeriesTypeCheck; a
+	// directory must always be opened with the value it was created with.
+	TSIPartitions int
 }
 
 // Fixture is one open shard.
@@ -60,9 +66,13 @@ type Fixture struct {
 }
 
 // ShardPath / WALPath / SeriesPath return the directories used below dir.
-func ShardPath(dir string) string  { return filepath.Join(dir, "data", "db0", "rp0", fmt.Sprint(ShardID)) }
-func WALPath(dir string) string    { return filepath.Join(dir, "wal", "db0", "rp0", fmt.Sprint(ShardID)) }
-func SeriesPath(dir string) string { return filepath.Join(dir, "data", "db0", tsdb.SeriesFileDirectory) }
+func ShardPath(dir string) string {
+	return filepath.Join(dir, "data", "db0", "rp0", fmt.Sprint(ShardID))
+}
+func WALPath(dir string) string { return filepath.Join(dir, "wal", "db0", "rp0", fmt.Sprint(ShardID)) }
+func SeriesPath(dir string) string {
+	return filepath.Join(dir, "data", "db0", tsdb.SeriesFileDirectory)
+}
 
 // FieldsIdxPath / FieldsLogPath are the two files of the persistent field schema.
 func FieldsIdxPath(dir string) string { return filepath.Join(ShardPath(dir), "fields.idx") }
@@ -84,6 +94,8 @@ func (o *ownIDSets) ForEach(fn func(ids *tsdb.SeriesIDSet)) error {
 }
 
 const typeCheckEnv = "INFLUXDB_SERIES_TYPE_CHECK_ENABLED"
+
+var defaultTSIPartitions = tsi1.DefaultPartitionN
 
 // Open opens (creating what is missing) the series file and the shard below dir with the real
 // open path (tsdb.NewSeriesFile.Open, tsdb.NewShard.Open). Compactions and the cache-snapshot
@@ -117,6 +129,11 @@ func Open(dir string, o Options) (*Fixture, error) {
 		os.Setenv(typeCheckEnv, "1")
 	} else {
 		os.Unsetenv(typeCheckEnv)
+	}
+	if o.TSIPartitions > 0 {
+		tsi1.DefaultPartitionN = uint64(o.TSIPartitions)
+	} else {
+		tsi1.DefaultPartitionN = defaultTSIPartitions
 	}
 	sh := tsdb.NewShard(ShardID, ShardPath(dir), WALPath(dir), sf, opt)
 	sh.CompactionDisabled = true
